@@ -53,6 +53,6 @@ Definition check_615 (fs : list field) : verdict :=
   match parse_head fs with
   | Some (root, sc, bs, FZ _ :: FZ nq :: r) =>
     if negb (count_ok nq) then VBad 99 [] else
-    run_queries (judge_615 sc root bs) false (Z.to_nat nq) 0 r VOk []
+    run_queries (judge_615 sc root bs) false false (Z.to_nat nq) 0 r VOk []
   | _ => VBad 99 []
   end.
